@@ -40,12 +40,13 @@ SortByKey(s, k) == SortBy(s, LAMBDA x : KeyOfMap(x, k), Leq)
 MinOf(s) == LET RECURSIVE go(_,_) go(i, best) == IF i > Len(s) THEN best ELSE go(i + 1, IF Cmp(s[i], best) < 0 THEN s[i] ELSE best) IN go(2, s[1])
 MaxOf(s) == LET RECURSIVE go(_,_) go(i, best) == IF i > Len(s) THEN best ELSE go(i + 1, IF Cmp(s[i], best) > 0 THEN s[i] ELSE best) IN go(2, s[1])
 
-\* comparison operators: defined for num/num, str/str, null/null (only <=, >=) ; null vs other false; bool and mixed: error
+\* comparison operators: defined for num/num, str/str and wherever a null takes part (yq answers there, it does not fail);
+\* they agree with the order: null is smaller than everything else. (yq's documentation and pinned tests say "one side
+\* null: every comparison is false" - that contradicts the order sort uses and is carried as a known finding of C15.)
+\* bool and mixed: error
 CompareOp(greater, oreq, a, b) ==
-  IF (a.k = "num" /\ b.k = "num") \/ (a.k = "str" /\ b.k = "str")
+  IF (a.k = "num" /\ b.k = "num") \/ (a.k = "str" /\ b.k = "str") \/ a.k = "null" \/ b.k = "null"
   THEN LET c == Cmp(a, b) IN IF c = 0 THEN (IF oreq THEN "true" ELSE "false") ELSE IF (IF greater THEN c > 0 ELSE c < 0) THEN "true" ELSE "false"
-  ELSE IF a.k = "null" /\ b.k = "null" THEN (IF oreq THEN "true" ELSE "false")
-  ELSE IF a.k = "null" \/ b.k = "null" THEN "false"
   ELSE "err"
 
 \* sort_keys: keys in code point order, values untouched
